@@ -290,6 +290,17 @@ type evDec struct {
 	Sok bool   `json:"sok"`
 	S   string `json:"s"`
 	Err string `json:"err"`
+	Sf  bool   `json:"sf"` // SeedFromPhrase was called before decode (history-independence groups)
+}
+type evSfp struct {
+	Op  string `json:"op"`
+	Raw string `json:"raw"`
+	T   []int  `json:"t"`
+	Eb  bits   `json:"eb"`
+	C   bits   `json:"c"`
+	Sok bool   `json:"sok"`
+	S   string `json:"s"`
+	Err string `json:"err"`
 }
 type evNew struct {
 	Op    string `json:"op"`
@@ -317,6 +328,8 @@ type recorder struct {
 	tw  *hx.TraceWriter
 	res *hx.Result
 	cur string // current group (for panic reports)
+	// seedFirst: dec calls the public SeedFromPhrase before the unexported decode (default: after)
+	seedFirst bool
 }
 
 func (r *recorder) guard(what string, arg any) {
@@ -349,7 +362,15 @@ func (r *recorder) dec(raw string, toks []string) (ok bool, d [16]byte, sok bool
 		eb := packWords(t)
 		ev.Eb, ev.C = bitsOfBytes(eb[:]), nibble(&eb)
 	}
-	err := r.c.decode(&d, raw)
+	var err, serr error
+	if r.seedFirst {
+		ev.Sf = true
+		serr = r.c.seed(&seed, raw)
+		err = r.c.decode(&d, raw)
+	} else {
+		err = r.c.decode(&d, raw)
+		serr = r.c.seed(&seed, raw)
+	}
 	ok = err == nil
 	ev.Ok = ok
 	if ok {
@@ -357,7 +378,6 @@ func (r *recorder) dec(raw string, toks []string) (ok bool, d [16]byte, sok bool
 	} else {
 		ev.Err = err.Error()
 	}
-	serr := r.c.seed(&seed, raw)
 	sok = serr == nil
 	ev.Sok = sok
 	if sok {
@@ -372,6 +392,34 @@ func (r *recorder) dec(raw string, toks []string) (ok bool, d [16]byte, sok bool
 	return
 }
 
+// sfp calls the public SeedFromPhrase ALONE (no decode call next to it) on raw.
+func (r *recorder) sfp(raw string, toks []string) (sok bool, seed [32]byte) {
+	defer r.guard("Sfp", raw)
+	t := tokensOf(toks)
+	ev := evSfp{Op: "Sfp", Raw: raw, T: t, Eb: bits{}, C: bits{}}
+	if wellFormed(t) {
+		eb := packWords(t)
+		ev.Eb, ev.C = bitsOfBytes(eb[:]), nibble(&eb)
+	}
+	err := r.c.seed(&seed, raw)
+	sok = err == nil
+	ev.Sok = sok
+	if sok {
+		ev.S = hex.EncodeToString(seed[:])
+	} else {
+		ev.Err = err.Error()
+	}
+	r.tw.Emit(ev)
+	r.res.Eval("Sfp:" + raw)
+	r.res.Count("Sfp", 1)
+	return
+}
+
+func (r *recorder) sfpIdx(t []int) (bool, [32]byte) {
+	toks := toksOfIdx(t)
+	return r.sfp(strings.Join(toks, " "), toks)
+}
+
 func (r *recorder) decIdx(t []int) (bool, [16]byte, bool, [32]byte) {
 	toks := make([]string, len(t))
 	for i, w := range t {
@@ -380,20 +428,26 @@ func (r *recorder) decIdx(t []int) (bool, [16]byte, bool, [32]byte) {
 	return r.dec(strings.Join(toks, " "), toks)
 }
 
-func (r *recorder) newPhrase() {
+func (r *recorder) newPhrase() { r.newPhraseThen(true) }
+
+// newPhraseThen calls NewSeedPhrase, records it, and (thenDec) decodes the result right away.
+func (r *recorder) newPhraseThen(thenDec bool) (eb [16]byte, wf bool) {
 	defer r.guard("New", nil)
 	p := r.c.newp()
 	toks := strings.Fields(p) // harness tokenisation; canon = it was already in canonical form
 	t := tokensOf(toks)
 	ev := evNew{Op: "New", Raw: p, T: t, Eb: bits{}, C: bits{}, Canon: p == strings.Join(toks, " ")}
-	if wellFormed(t) {
-		eb := packWords(t)
+	if wf = wellFormed(t); wf {
+		eb = packWords(t)
 		ev.Eb, ev.C = bitsOfBytes(eb[:]), nibble(&eb)
 	}
 	r.tw.Emit(ev)
 	r.res.Eval("New:" + p)
 	r.res.Count("New", 1)
-	r.dec(p, toks)
+	if thenDec {
+		r.dec(p, toks)
+	}
+	return
 }
 
 func (r *recorder) key(seed [32]byte, i uint64) {
@@ -551,6 +605,165 @@ func (r *recorder) heavy(e [16]byte, rng *rand.Rand, nws, nmal, nkey int) {
 	}
 }
 
+// ---- history independence: (previous call) x (boundary phrase), enumerated
+//
+// The replies specified by Seed.tla are a function of the call alone.  A hist group makes one
+// "previous call" of a given kind and then, immediately, a call on a boundary entropy B: decode of
+// the valid phrase of B (public SeedFromPhrase first), encode of B, and decode of the last-word
+// variants of B (all 16, or in the reduced form the two most telling ones) -- the previous call is
+// repeated before every one of them, so each follow-up sees the state left by exactly that call.
+
+// prevKinds: every kind of call that can precede.  Each returns the entropy of the phrase it
+// handled successfully (nil if none), used to aim one wrong variant at "checksum of the previous".
+var prevKinds = []struct {
+	name string
+	run  func(r *recorder, rng *rand.Rand, b [16]byte) *[16]byte
+}{
+	{"new", func(r *recorder, _ *rand.Rand, _ [16]byte) *[16]byte {
+		if e, wf := r.newPhraseThen(false); wf {
+			return &e
+		}
+		return nil
+	}},
+	{"seed-7f", func(r *recorder, _ *rand.Rand, _ [16]byte) *[16]byte { return r.sfpEntropy(fill(0x7f)) }}, // legal winner ... yellow
+	{"seed-80", func(r *recorder, _ *rand.Rand, _ [16]byte) *[16]byte { return r.sfpEntropy(fill(0x80)) }}, // letter advice ... above
+	{"seed-ff", func(r *recorder, _ *rand.Rand, _ [16]byte) *[16]byte { return r.sfpEntropy(fill(0xff)) }}, // zoo ... wrong
+	{"seed-00", func(r *recorder, _ *rand.Rand, _ [16]byte) *[16]byte { return r.sfpEntropy(fill(0x00)) }}, // abandon ... about
+	{"seed-rand", func(r *recorder, rng *rand.Rand, _ [16]byte) *[16]byte {
+		var e [16]byte
+		rng.Read(e[:])
+		return r.sfpEntropy(e)
+	}},
+	{"seed-neighbour", func(r *recorder, _ *rand.Rand, b [16]byte) *[16]byte { // same first 11 words as B
+		b[15] ^= 1
+		return r.sfpEntropy(b)
+	}},
+	{"dec-rand", func(r *recorder, rng *rand.Rand, _ [16]byte) *[16]byte { // decode, then SeedFromPhrase
+		var e [16]byte
+		rng.Read(e[:])
+		return r.decEntropy(e)
+	}},
+	{"seeddec-rand", func(r *recorder, rng *rand.Rand, _ [16]byte) *[16]byte { // SeedFromPhrase, then decode
+		var e [16]byte
+		rng.Read(e[:])
+		r.seedFirst = true
+		defer func() { r.seedFirst = false }()
+		return r.decEntropy(e)
+	}},
+	{"enc-rand", func(r *recorder, rng *rand.Rand, _ [16]byte) *[16]byte {
+		var e [16]byte
+		rng.Read(e[:])
+		r.enc(e)
+		return &e
+	}},
+	{"key", func(r *recorder, rng *rand.Rand, _ [16]byte) *[16]byte {
+		var s [32]byte
+		rng.Read(s[:])
+		r.key(s, keyIndices[rng.Intn(len(keyIndices))])
+		return nil
+	}},
+	{"badsum", func(r *recorder, rng *rand.Rand, _ [16]byte) *[16]byte { // a decode that fails on the checksum
+		var e [16]byte
+		rng.Read(e[:])
+		t := packIdx(e)
+		t[11] ^= 1 + rng.Intn(15)
+		r.decIdx(t)
+		return nil
+	}},
+	{"malformed", func(r *recorder, rng *rand.Rand, _ [16]byte) *[16]byte {
+		var e [16]byte
+		rng.Read(e[:])
+		m := malformed(packIdx(e), rng, 1)[0]
+		r.dec(m[0].(string), m[1].([]string))
+		return nil
+	}},
+}
+
+func fill(x byte) (e [16]byte) {
+	for i := range e {
+		e[i] = x
+	}
+	return
+}
+
+// sfpEntropy: SeedFromPhrase alone on the valid phrase of e, built by the harness.
+func (r *recorder) sfpEntropy(e [16]byte) *[16]byte {
+	r.sfpIdx(packIdx(e))
+	return &e
+}
+
+// decEntropy decodes (decode + SeedFromPhrase) the valid phrase of e, built by the harness.
+func (r *recorder) decEntropy(e [16]byte) *[16]byte {
+	r.decIdx(packIdx(e))
+	return &e
+}
+
+func (r *recorder) hist(pk int, b [16]byte, full bool, rng *rand.Rand) {
+	prev := func() *[16]byte { return prevKinds[pk].run(r, rng, b) }
+	tb := packIdx(b)
+	variant := func(v int) []int {
+		u := append([]int(nil), tb...)
+		u[11] = tb[11]&^15 | v&15
+		return u
+	}
+	// every follow-up is made twice, each time directly after the previous call: through the public
+	// SeedFromPhrase alone, and through decode + SeedFromPhrase
+	both := func(t []int) (pe *[16]byte) {
+		prev()
+		r.sfpIdx(t)
+		pe = prev()
+		r.decIdx(t)
+		return
+	}
+	both(tb)
+	prev()
+	r.enc(b)
+	if full {
+		for v := 0; v < 16; v++ {
+			both(variant(v))
+		}
+		both(tb)
+		return
+	}
+	// reduced: one wrong variant -- the checksum of the previous phrase -- and the valid phrase again
+	pe := prev()
+	v := tb[11]&15 ^ 1
+	if pe != nil && nibbleVal(pe) != tb[11]&15 {
+		v = nibbleVal(pe)
+	}
+	r.sfpIdx(variant(v))
+	if pe2 := prev(); pe2 != nil && nibbleVal(pe2) != tb[11]&15 {
+		v = nibbleVal(pe2)
+	}
+	r.decIdx(variant(v))
+	both(tb)
+}
+
+// histGroups enumerates prevKinds x boundary entropies.  Core boundaries always get the full form;
+// the other single-bit entropies get it only when histFull is set (thorough tier).
+func histGroups(histFull bool) (gs []group) {
+	type bnd struct {
+		e    [16]byte
+		core bool
+	}
+	bs := []bnd{{fill(0), true}, {fill(0xff), true}, {fill(0x7f), true}, {fill(0x80), true}}
+	for i := 0; i < 128; i++ {
+		var e [16]byte
+		setBit(&e, i)
+		core := i == 0 || i == 63 || i == 64 || i == 120 || i == 121 || i == 127
+		bs = append(bs, bnd{e, core})
+	}
+	for pk := range prevKinds {
+		for _, b := range bs {
+			pk, b := pk, b
+			gs = append(gs, group{"hist-" + prevKinds[pk].name, func(r *recorder, rng *rand.Rand) {
+				r.hist(pk, b.e, b.core || histFull, rng)
+			}})
+		}
+	}
+	return
+}
+
 // fixup returns t with the checksum bits of the last word set to the harness's nibble.
 func fixup(t []int) []int {
 	u := append([]int(nil), t...)
@@ -571,8 +784,8 @@ func entropyGroup(kind string, e [16]byte, nws, nmal, nkey int) group {
 func setBit(e *[16]byte, i int) { e[i/8] |= 1 << uint(7-i%8) }
 
 type params struct {
-	Uniform, Sweep, SweepFix, Pattern, NewN, Shards, Bits int
-	Nws, Nmal, Nkey                                       int
+	Uniform, Sweep, SweepFix, Pattern, NewN, Shards, Bits, Hist int
+	Nws, Nmal, Nkey                                             int
 }
 
 func buildGroups(p params, rng *rand.Rand) (gs []group) {
@@ -701,7 +914,7 @@ func TestDriver(t *testing.T) {
 	}
 	p := params{
 		Uniform: hx.EnvInt("VERIF_UNIFORM", 100), Sweep: hx.EnvInt("VERIF_SWEEP", 1), SweepFix: hx.EnvInt("VERIF_SWEEPFIX", 4),
-		Pattern: hx.EnvInt("VERIF_PATTERN", 256), NewN: hx.EnvInt("VERIF_NEW", 64), Shards: hx.EnvInt("VERIF_SHARDS", 8), Bits: hx.EnvInt("VERIF_BITS", 1),
+		Pattern: hx.EnvInt("VERIF_PATTERN", 256), NewN: hx.EnvInt("VERIF_NEW", 64), Shards: hx.EnvInt("VERIF_SHARDS", 8), Bits: hx.EnvInt("VERIF_BITS", 1), Hist: hx.EnvInt("VERIF_HIST", 1),
 		Nws: hx.EnvInt("VERIF_NWS", 3), Nmal: hx.EnvInt("VERIF_NMAL", 3), Nkey: hx.EnvInt("VERIF_NKEY", 3),
 	}
 	dir := hx.Env("VERIF_WORK", os.TempDir())
@@ -709,6 +922,9 @@ func TestDriver(t *testing.T) {
 		os.WriteFile(filepath.Join(dir, "wordlist.json"), b, 0o644)
 	}
 	gs := buildGroups(p, hx.Rand(20))
+	if p.Hist > 0 { // 1: enumerated, reduced form for non-core boundaries; 2: full form everywhere
+		gs = append(gs, histGroups(p.Hist > 1)...)
+	}
 	// deal the groups to the shards (shuffled, so every shard has every family)
 	hx.Rand(21).Shuffle(len(gs), func(i, j int) { gs[i], gs[j] = gs[j], gs[i] })
 	// each shard starts with a heavy group that is pinned and repeated verbatim at the end
@@ -777,12 +993,17 @@ type gstep struct {
 	K     int    `json:"k"`
 	Op    string `json:"op"`
 	Reply greply `json:"reply"`
+	Mode  *int   `json:"mode,omitempty"` // how to perform a Dec step; absent: the harness cycles through the modes
 }
 
 type replayIn struct {
 	Codec string    `json:"codec"`
 	Calls []gcall   `json:"calls"` // 1-based in the spec: call k is Calls[k-1]
 	Paths [][]gstep `json:"paths"`
+	// Probes: boundary calls (with the reply computed by TLC) that are interleaved after the path
+	// steps: replies are a function of the call alone, so a probe must get its specified reply
+	// whatever call came before.  Each kind of previous call cycles through all probes.
+	Probes []gstep `json:"probes"`
 }
 
 func eqInts(a, b []int) bool {
@@ -798,7 +1019,16 @@ func eqInts(a, b []int) bool {
 }
 
 // stepReal performs call k on the codec and compares with the reply computed by TLC.
-func stepReal(c *codec, call gcall, want greply) (sig, desc string) {
+// How a Dec step is performed on the real code (the spec's reply covers both functions).
+const (
+	modeDecodeSeed = iota // decode, then SeedFromPhrase
+	modeSeedOnly          // the public SeedFromPhrase alone
+	modeSeedDecode        // SeedFromPhrase, then decode
+	modeDecodeOnly        // decode alone
+	nModes
+)
+
+func stepReal(c *codec, call gcall, want greply, mode int) (sig, desc string) {
 	defer func() {
 		if p := recover(); p != nil {
 			sig, desc = "replay:"+call.Op+":panic", fmt.Sprint(p)
@@ -826,16 +1056,27 @@ func stepReal(c *codec, call gcall, want greply) (sig, desc string) {
 		}
 		raw := strings.Join(toks, " ")
 		var d [16]byte
-		err := c.decode(&d, raw)
 		var s [32]byte
-		serr := c.seed(&s, raw)
-		if (err == nil) != want.Ok {
+		var err, serr error
+		doDec, doSeed := mode != modeSeedOnly, mode != modeDecodeOnly
+		if mode == modeSeedDecode {
+			serr = c.seed(&s, raw)
+			err = c.decode(&d, raw)
+		} else {
+			if doDec {
+				err = c.decode(&d, raw)
+			}
+			if doSeed {
+				serr = c.seed(&s, raw)
+			}
+		}
+		if doDec && (err == nil) != want.Ok {
 			return "replay:Dec:ok", fmt.Sprintf("decode(%q): err=%v, spec ok=%v", raw, err, want.Ok)
 		}
-		if (serr == nil) != want.Ok {
+		if doSeed && (serr == nil) != want.Ok {
 			return "replay:Dec:seed-ok", fmt.Sprintf("SeedFromPhrase(%q): err=%v, spec ok=%v", raw, serr, want.Ok)
 		}
-		if want.Ok {
+		if want.Ok && doDec {
 			if got := []int(bitsOfBytes(d[:])); !eqInts(got, want.E) {
 				return "replay:Dec:entropy", fmt.Sprintf("decode(%q) = %x, spec: %v", raw, d, want.E)
 			}
@@ -861,6 +1102,8 @@ func TestReplay(t *testing.T) {
 	if err != nil {
 		t.Fatal(err)
 	}
+	probeN := map[string]int{}
+	stepN := 0
 	for pi, path := range in.Paths {
 		for si, st := range path {
 			if st.Op == "Reset" {
@@ -873,7 +1116,12 @@ func TestReplay(t *testing.T) {
 			if !st.Reply.Contract {
 				t.Fatalf("call %d: the orchestrator's packing/checksum was rejected by the spec", st.K)
 			}
-			sig, desc := stepReal(c, call, st.Reply)
+			mode := stepN % nModes
+			if st.Mode != nil {
+				mode = *st.Mode
+			}
+			stepN++
+			sig, desc := stepReal(c, call, st.Reply, mode)
 			if sig == "infra" {
 				t.Fatalf("call %d: %s", st.K, desc)
 			}
@@ -881,9 +1129,40 @@ func TestReplay(t *testing.T) {
 			res.Count("replay."+call.Op, 1)
 			if sig != "" {
 				res.Mismatch(sig, desc, map[string]any{"kind": "path", "codec": c.name, "calls": []gcall{call},
-					"paths": [][]gstep{{{K: 1, Op: st.Op, Reply: st.Reply}}}})
+					"paths": [][]gstep{{{K: 1, Op: st.Op, Reply: st.Reply, Mode: &mode}}}})
 			} else if len(res.Samples) < 2 {
 				res.Sample(map[string]any{"call": call.Op, "k": st.K, "spec_reply_matches_real": true, "t": call.T, "w": st.Reply.W})
+			}
+			if len(in.Probes) > 0 {
+				kind := "enc"
+				if call.Op == "Dec" {
+					switch {
+					case st.Reply.Ok:
+						kind = "dec-ok"
+					case st.Reply.Wf:
+						kind = "dec-badsum"
+					default:
+						kind = "dec-malformed"
+					}
+					kind += [nModes]string{"/decode+seed", "/seed", "/seed+decode", "/decode"}[mode]
+				}
+				// each (kind of previous call) cycles through all probes; the probe is made through the
+				// public SeedFromPhrase alone on the first cycle, then through the other modes
+				pr := in.Probes[probeN[kind]%len(in.Probes)]
+				pmode := [nModes]int{modeSeedOnly, modeDecodeSeed, modeDecodeOnly, modeSeedDecode}[probeN[kind]/len(in.Probes)%nModes]
+				probeN[kind]++
+				pcall := in.Calls[pr.K-1]
+				psig, pdesc := stepReal(c, pcall, pr.Reply, pmode)
+				if psig == "infra" {
+					t.Fatalf("probe %d: %s", pr.K, pdesc)
+				}
+				res.Eval(fmt.Sprintf("%s:%d after %s:%d", pcall.Op, pr.K, call.Op, st.K))
+				res.Count("probe.after-"+kind, 1)
+				if psig != "" {
+					res.Mismatch(psig+":after-"+kind, pdesc+fmt.Sprintf(" -- directly after call %d (%s, %s)", st.K, call.Op, kind),
+						map[string]any{"kind": "path", "codec": c.name, "calls": []gcall{call, pcall},
+							"paths": [][]gstep{{{K: 1, Op: st.Op, Reply: st.Reply, Mode: &mode}, {K: 2, Op: pr.Op, Reply: pr.Reply, Mode: &pmode}}}})
+				}
 			}
 		}
 	}
@@ -939,9 +1218,14 @@ func TestReexec(t *testing.T) {
 			r.enc(e)
 		case "Dec":
 			raw, _ := ev["raw"].(string)
+			r.seedFirst, _ = ev["sf"].(bool)
 			r.dec(raw, strings.Fields(raw))
+			r.seedFirst = false
+		case "Sfp":
+			raw, _ := ev["raw"].(string)
+			r.sfp(raw, strings.Fields(raw))
 		case "New":
-			r.newPhrase()
+			r.newPhraseThen(false) // a decode that followed was recorded as its own event
 		case "Key":
 			sh, _ := ev["s"].(string)
 			b, _ := hex.DecodeString(sh)
